@@ -1493,13 +1493,13 @@ func (sc *serverConn) closeStream(st *stream, err error) {
 	delete(sc.streams, st.id)
 	if p := st.body; p != nil {
 		// Return any buffered unread bytes worth of conn-level flow control.
-		sc.sendWindowUpdate(nil, p.Len())
+		// They are counted and taken away from the handler in one step: a
+		// handler Read racing with closeStream must not be credited again
+		// through noteBodyRead for bytes that are refunded here.
+		sc.sendWindowUpdate(nil, p.BreakWithErrorAndLen(err))
 		p.CloseWithError(err)
 		if st.defaultStreamWindow() {
 			p.Release(&fixBufferPool)
-		} else {
-			// The unread bytes were refunded above: do not hand them to the handler.
-			p.BreakWithError(err)
 		}
 	}
 	st.cw.Close() // signals Handler's CloseNotifier, unblocks writes, etc
